@@ -1,0 +1,56 @@
+//go:build verif
+
+package task
+
+import (
+	"github.com/mesos/mesos-go/api/v1/lib/scheduler/calls"
+)
+
+// VerifSetCaller replaces the Mesos HTTP caller of the scheduler by the given one (wrapped in the
+// same call rules as the real one). Must be called before Start.
+func (m *Manager) VerifSetCaller(c calls.Caller) {
+	m.schedulerState.cli = c
+	m.schedulerState.setupCli()
+}
+
+// VerifTaskInfo is a read-only snapshot of a roster entry.
+type VerifTaskInfo struct {
+	TaskId     string
+	ClassName  string
+	Hostname   string
+	AgentId    string
+	ExecutorId string
+	EnvId      string // "" when the task has no parent role
+	Locked     bool
+	Claimable  bool
+	State      string
+	Status     string
+	RolePath   string
+	Critical   bool
+}
+
+func (m *Manager) VerifRoster() []VerifTaskInfo {
+	out := make([]VerifTaskInfo, 0)
+	for _, t := range m.roster.getTasks() {
+		ti := VerifTaskInfo{
+			TaskId:     t.GetTaskId(),
+			ClassName:  t.GetClassName(),
+			Hostname:   t.GetHostname(),
+			AgentId:    t.GetAgentId(),
+			ExecutorId: t.GetExecutorId(),
+			Locked:     t.IsLocked(),
+			Claimable:  t.IsClaimable(),
+		}
+		t.mu.RLock()
+		ti.State = t.state.String()
+		ti.Status = t.status.String()
+		t.mu.RUnlock()
+		if p := t.GetParent(); p != nil {
+			ti.EnvId = t.GetEnvironmentId().String()
+			ti.RolePath = t.GetParentRolePath()
+			ti.Critical = t.GetTraits().Critical
+		}
+		out = append(out, ti)
+	}
+	return out
+}
